@@ -10,7 +10,7 @@ PID = 'C10'
 SCHEDULE_DEPENDENT = True
 RULE = ('one real ActiveObject under virtual (discrete-event) time; 1-4 concurrent timed sources created by post_fifo/'
         'post_lifo with period from {0.1, 0.25, 1, 7, 60} s, times from 0-6, deferred True/False/default, started at drawn '
-        'instants; the timer threads, the consumer and the clients are interleaved by the seeded scheduler. "exact" stratum: '
+        'instants (in a quarter of the runs before start_at); the timer threads, the consumer and the clients are interleaved by the seeded scheduler. "exact" stratum: '
         'timers wake exactly on time (in 40% of the runs some handler invocations sleep for 0.5-6 periods: a chart that falls behind must not change what is posted); "jitter" stratum: every timer sleep is late by a drawn amount (injected fault). Oracle '
         '(timer calendar): the virtual instants at which each source\'s thread appends to the queue are exactly t0 + k*p '
         '(k from 1 if deferred, from 0 if not) in the exact stratum, and never earlier than that and with gaps >= p in the '
@@ -45,6 +45,11 @@ def generate(seed, stratum, tier):
     if slot and rng.random() < 0.5:
       c0.append(['sleep', rng.choice([0.05, 0.1, 0.3, 1, 2.5])])
     c0.append(['timed', 0, rng.choice(['fifo', 'lifo']), 'T%d' % slot, p, times, rng.choice([True, False, None]), slot])
+  if rng.random() < 0.25:
+    # sources armed before the object is started: the start comes a little later
+    c0.remove(['start', 0])
+    c0.append(['sleep', rng.choice([0.05, 0.3, 1.2, 8])])
+    c0.append(['start', 0])
   clients = [c0]
   if rng.random() < 0.4:
     clients.append([['sleep', 0.001]] + [[rng.choice(['post_fifo', 'post_lifo']), 0, 'SA'] for _ in range(rng.randrange(1, 4))])
